@@ -32,9 +32,32 @@
 
 #include <dlfcn.h>
 #include <stddef.h>
+#include <ctype.h>
 #include <stdio.h>
 #include <stdlib.h>
 #include <string.h>
+
+
+
+/*
+ * Does a value have to be wrapped in double quotes in order to survive being read back from a config file?
+ * (The parser strips surrounding whitespace first, and then one pair of surrounding quotes.)
+ */
+static int snoopy_cli_action_conf_valueNeedsQuoting (const char * const value)
+{
+    size_t len = strlen(value);
+
+    if (0 == len) {
+        return 0;
+    }
+    if (isspace((unsigned char) value[0]) || isspace((unsigned char) value[len-1])) {
+        return 1;
+    }
+    if (((value[0] == '"') && (value[len-1] == '"')) || ((value[0] == '\'') && (value[len-1] == '\''))) {
+        return 1;
+    }
+    return 0;
+}
 
 
 
@@ -71,7 +94,11 @@ int snoopy_cli_action_conf ()
     optionRegistry = snoopy_configfile_optionRegistry_getAll_ptr();
     for (int i=0 ; 0 != strcmp(optionRegistry[i].name, "") ; i++) {
         char * optionValue = snoopy_configfile_optionRegistry_getOptionValueAsString_ptr(optionRegistry[i].name);
-        printf("%s = %s\n", optionRegistry[i].name, optionValue);
+        if (snoopy_cli_action_conf_valueNeedsQuoting(optionValue)) {
+            printf("%s = \"%s\"\n", optionRegistry[i].name, optionValue);
+        } else {
+            printf("%s = %s\n", optionRegistry[i].name, optionValue);
+        }
         free(optionValue);
     }
 
